@@ -74,6 +74,8 @@ class AvroWriter(AbstractWriter):
         self.writer.write(r._packdict())
 
     def flush(self):
+        if not self.fp:
+            return
         if not self.writer:
             self.writer = fastavro.write.Writer(
                 self.fp,
@@ -83,8 +85,10 @@ class AvroWriter(AbstractWriter):
         self.writer.flush()
 
     def close(self) -> None:
-        if self.fp and not is_stdout(self.fp):
-            self.fp.close()
+        if self.fp:
+            self.flush()
+            if not is_stdout(self.fp):
+                self.fp.close()
         self.fp = None
         self.writer = None
 
